@@ -4,11 +4,17 @@
 
 package http_api
 
-// NewDeadlineTransport (assumed): a new http.Transport; builds a net.Dialer method value (outside the subset), touches no modelled state.
+// NewDeadlineTransport (round 6, area M: was a `trusted` stub, the body is verified now - the bound method value `(&net.Dialer{..}).DialContext` is inside
+// the subset since the round-5 engine): a new http.Transport that waits at most requestTimeout for the response header (C16 / C18 "a slow or stalled
+// upstream cannot hang the caller"), with a dial function (the connect timeout sits in the net.Dialer it is bound to), no TLS configuration yet; no
+// modelled state is touched.
 //@ func NewDeadlineTransport(connectTimeout time.Duration, requestTimeout time.Duration) *http.Transport
-//@   trusted
+//@   props C11 C16 C18
 //@   nochan
 //@   ensures result != nil && fresh(result)
+//@   ensures[response-header-deadline-is-the-request-timeout] result.ResponseHeaderTimeout == requestTimeout
+//@   ensures[dials-through-a-dialer-with-the-connect-timeout] result.DialContext != nil && fnname(result.DialContext) == "(*net.Dialer).DialContext"
+//@   ensures[no-tls-configuration-yet] result.TLSClientConfig == nil
 //@   modifies
 
 // NewClient: a new client whose transport carries exactly the TLS configuration it was given and whose overall timeout is the request
